@@ -49,6 +49,9 @@ try:
     meta["suite_output"] = out[-400:]
     meta["ran"].append("PYTHONHASHSEED=0 tools/baseline.py <changed tree> (pinned suite, 214 stable tests)")
     detected = {}
+    evf = os.path.join(V, "evidence", f"{pid}.json")
+    ev_saved = open(evf).read() if os.path.exists(evf) else None
+    before = set(os.listdir(os.path.join(V, "replays")))
     for tier in ("quick", "thorough"):
         t0 = time.time()
         env = dict(os.environ, PS_REPO=wt)
@@ -60,12 +63,19 @@ try:
             # keep the first replay for the record
             break
     meta["check"] = detected
+    # the evidence file must describe /repo itself, not the changed tree: put it back; keep the replays with the seed
+    if ev_saved is not None:
+        open(evf, "w").write(ev_saved)
+    os.makedirs(os.path.join(V, "seeded", name), exist_ok=True)
+    for fn in sorted(set(os.listdir(os.path.join(V, "replays"))) - before):
+        if fn.endswith(".json"):
+            shutil.move(os.path.join(V, "replays", fn), os.path.join(V, "seeded", name, "replay-" + fn))
     meta["caught"] = any(d["exit"] == 1 for d in detected.values())
 finally:
     dst = os.path.join(V, "seeded", name)
     os.makedirs(dst, exist_ok=True)
     for f in ("patch.diff", "demo.py", "notes.md"):
-        if os.path.exists(os.path.join(src, f)):
+        if os.path.exists(os.path.join(src, f)) and os.path.abspath(os.path.join(src, f)) != os.path.abspath(os.path.join(dst, f)):
             shutil.copy(os.path.join(src, f), os.path.join(dst, f))
     json.dump(meta, open(os.path.join(dst, "meta.json"), "w"), indent=1)
     subprocess.run(["git", "-C", "/repo", "worktree", "remove", "--force", wt], stdout=subprocess.DEVNULL, stderr=subprocess.DEVNULL)
